@@ -1,6 +1,6 @@
 (* Properties/C15.v — gradual calculators obey the iterator protocol. *)
 From Coq Require Import ZArith List Bool.
-From V Require Import F64 Gradual GradualProofs TaikoProofs.
+From V Require Import F64 Gradual GradualProofs GradPerf GradPerfProofs TaikoProofs.
 Import ListNotations.
 Open Scope Z_scope.
 
@@ -59,3 +59,20 @@ Theorem C15_taiko : forall (S : Type) (process : S -> Z -> S) (s0 : S) (flags : 
   = spec_gops (oneshots (taiko_oneshot S process s0 flags) (taiko_total_hits flags)) ops.
 Proof. exact taiko_gradual_refines. Qed.
 Print Assumptions C15_taiko.
+
+(* gradual PERFORMANCE calculators: one call of nth(state, n) from any reachable state processes
+   min(n+1, remaining) objects (last = nth(usize::MAX)), and returns None exactly when nothing
+   remains - the protocol clause for the performance iterators (the values are C03's) *)
+Theorem C15_gperf_processed : forall (S : Type) (process : S -> Z -> S) (s0 : S)
+    (Obj Cnt St P : Type) (inc : Cnt -> Obj -> Cnt) (c0 : Cnt) (precount : bool)
+    (objs : list Obj) (perf : Cnt * S -> Z -> St -> P) (g : @gstate S Cnt) (p : Z) (s : St) (n : Z),
+  R S process s0 inc c0 precount objs g p -> 0 <= n ->
+  exists g',
+    snd (gp_nth (g_nth S process inc precount objs (sat_sub (zlen objs) 1))
+                (g_len S objs (sat_sub (zlen objs) 1)) (@g_idx S Cnt) perf s n g) = g'
+    /\ R S process s0 inc c0 precount objs g' (p + processed_by n (zlen objs - p))
+    /\ (fst (gp_nth (g_nth S process inc precount objs (sat_sub (zlen objs) 1))
+                    (g_len S objs (sat_sub (zlen objs) 1)) (@g_idx S Cnt) perf s n g) = None
+        <-> p = zlen objs).
+Proof. exact gperf_processed. Qed.
+Print Assumptions C15_gperf_processed.
